@@ -84,6 +84,18 @@ def fam_classmap_bytes(q):
         lambda s, g: len(s["indexed"]), q
 
 
+def fam_glat_bytes(q, opts=()):
+    """q glyph attributes on each of ~1090 glyphs: the glyph attribute data crosses 65535 bytes (16-bit Gloc offsets) near
+    q = 29; the last glyphs' values must still be read back."""
+    attrs = "; ".join("ga%d = %d" % (i, 100 + i) for i in range(q))
+    return (HDR + "table(glyph) cAll = glyphid(2..1090) {%s}; cA = glyphid(3..6); cB = glyphid(7..10); endtable;\ntable(sub) cA > cB; endtable;\n" % attrs), list(opts), \
+        lambda s, g: sorted(v for a, v in g["glat"]["glyphs"][1089]["attrs"] if 100 <= v < 100 + q) == list(range(100, 100 + q)), True
+
+
+def fam_glat_bytes_c(q):
+    return fam_glat_bytes(q, ("-c",))
+
+
 FAMILIES = [
     ("passes", fam_passes, [127, 128, 129, 300], 200),
     ("rule_slots", fam_slots, [63, 64, 65, 200], 120),
@@ -96,6 +108,8 @@ FAMILIES = [
     ("action_block_size", fam_actions, [1500, 2100, 2200, 3000], 200),
     ("replacement_classes_v2", fam_classes_v2, [100, 127, 128, 129, 300], 200),
     ("class_map_bytes", fam_classmap_bytes, [40, 54, 55, 70, 100], 230),
+    ("glat_bytes", fam_glat_bytes, [20, 28, 29, 30, 40], 1100),
+    ("glat_bytes_compressed", fam_glat_bytes_c, [20, 28, 29, 30, 40], 1100),
 ]
 
 
@@ -114,7 +128,7 @@ def run(tier, seed, replay=None):
             fontb, _g, _c = ttf.simple_font(nglyphs)
         else:
             fontb = font
-        for q in qs if (tier == "thorough" or fname == "class_map_bytes") else qs[:4]:
+        for q in qs if (tier == "thorough" or fname in ("class_map_bytes", "glat_bytes", "glat_bytes_compressed")) else qs[:4]:
             gdl, opts, reader, true_value = fam(q)
             d = os.path.join(work, "%s_%d" % (fname, q))
             os.makedirs(d)
@@ -186,7 +200,7 @@ def run(tier, seed, replay=None):
     rep.coverage.update({
         "programs": stats["cases"], "traces_validated_against_impl": stats["cases"], "disagreements_checked": len(rep.violations),
         "evaluations": stats["cases"], "distinct_nontrivial": len(distinct), "outcomes": table,
-        "rule": "11 size-parameterised families x 4-5 sizes around each limit; distinct = distinct (family, size, outcome)",
+        "rule": "13 size-parameterised families x 4-5 sizes around each limit; distinct = distinct (family, size, outcome)",
         "samples": samples, "exhaustive": False,
     })
     rep.assumptions += ["field widths are my reading of GTF; limits are re-extracted from constants.h",
